@@ -339,4 +339,240 @@ theorem opSpec_storeInt (v : Int) (n : Nat) :
   · rw [int2baS_none v n h]
     exact opSpec_fail.congr (by simp [h]) (fun hh => hh.elim)
 
+
+theorem fitsUint_iff (n : Nat) (v : Int) : FitsUint n v ↔ 0 ≤ v ∧ v.toNat < 2 ^ n := by
+  unfold FitsUint
+  have := int_pow_cast n
+  constructor <;> intro h <;> refine ⟨h.1, ?_⟩ <;> omega
+
+theorem fitsUint_nat (n L : Nat) : FitsUint n (L : Int) ↔ L < 2 ^ n := by
+  rw [fitsUint_iff]; simp
+
+theorem opSpec_storeBytes (bs : Bytes) : OpSpec (BOp.storeBytes bs : BOp R) True (bytesBits bs) [] := by
+  unfold BOp.storeBytes; rw [bytesToBits_eq_bytesBits]; exact opSpec_extend _
+
+theorem opSpec_storeString (bs : Bytes) :
+    OpSpec (BOp.storeString bs : BOp R) (bs.length ≤ 127) (bytesBits bs) [] := by
+  unfold BOp.storeString
+  by_cases h : bs.length > 127
+  · simp only [h, if_true]
+    exact opSpec_fail.congr ⟨False.elim, fun hh => by omega⟩ (fun hh => hh.elim)
+  · simp only [h, if_false]
+    exact (opSpec_storeBytes bs).congr ⟨fun _ => by omega, fun _ => trivial⟩ (fun _ => ⟨rfl, rfl⟩)
+
+theorem opSpec_storeVarUint (v : Int) (k : Nat) :
+    OpSpec (BOp.storeVarUint v k : BOp R) (0 < k ∧ 0 ≤ v ∧ byteLenU v.toNat < 2 ^ k)
+      (varUIntBits k v.toNat) [] := by
+  unfold BOp.storeVarUint varUIntBits
+  by_cases hv : v = 0
+  · subst hv
+    simp only [if_true]
+    refine (opSpec_storeUint 0 k).congr ?_ ?_
+    · have := Nat.pow_pos (n := k) (show 0 < 2 by decide)
+      simp [fitsUint_iff, byteLenU] <;> omega
+    · intro _; simp [byteLenU, uintBits]
+  · simp only [hv, if_false]
+    by_cases h0 : 0 ≤ v
+    · have hn : v.natAbs = v.toNat := by omega
+      have hL : (BOp.bitLen v.natAbs + 7) / 8 = byteLenU v.toNat := by rw [hn, byteLen_model]
+      rw [hL]
+      have hpos : 0 < byteLenU v.toNat := byteLenU_pos (by omega)
+      have hlt := lt_pow_byteLenU v.toNat
+      refine (opSpec_andThen (opSpec_storeUint _ k) (opSpec_storeUint v _)).congr ?_ ?_
+      · rw [fitsUint_nat, fitsUint_iff, Nat.mul_comm]
+        constructor
+        · rintro ⟨⟨a, b⟩, _⟩; exact ⟨a, h0, b⟩
+        · rintro ⟨a, _, b⟩; exact ⟨⟨a, b⟩, by omega, h0, hlt⟩
+      · intro _; simp [Nat.mul_comm]
+    · refine (opSpec_andThen (opSpec_storeUint _ k) (opSpec_storeUint v _)).congr ?_ ?_
+      · rw [fitsUint_iff (_ * 8)]
+        constructor
+        · rintro ⟨_, _, c, _⟩; exact absurd c h0
+        · rintro ⟨_, c, _⟩; exact absurd c h0
+      · rintro ⟨_, _, c, _⟩; exact absurd c h0
+
+theorem opSpec_storeVarInt (v : Int) (k : Nat) :
+    OpSpec (BOp.storeVarInt v k : BOp R) (0 < k ∧ byteLenS v < 2 ^ k) (varIntBits k v) [] := by
+  unfold BOp.storeVarInt varIntBits
+  by_cases hv : v = 0
+  · subst hv
+    simp only [if_true]
+    refine (opSpec_storeUint 0 k).congr ?_ ?_
+    · have := Nat.pow_pos (n := k) (show 0 < 2 by decide)
+      simp [fitsUint_iff, byteLenS] <;> omega
+    · intro _; simp [byteLenS, intBits, uintBits]
+  · simp only [hv, if_false]
+    have hL : (BOp.bitLen (if v ≥ 0 then v.toNat else (-v - 1).toNat) + 1 + 7) / 8 = byteLenS v := by
+      rw [byteLenS_model]; unfold byteLenS magS; simp [hv]
+    rw [hL]
+    have hpos : 0 < byteLenS v := byteLenS_pos hv
+    have hfit := byteLenS_fits v
+    refine (opSpec_andThen (opSpec_storeUint _ k) (opSpec_storeInt v _)).congr ?_ ?_
+    · rw [fitsUint_nat, Nat.mul_comm]
+      constructor
+      · rintro ⟨⟨a, b⟩, _⟩; exact ⟨a, b⟩
+      · rintro ⟨a, b⟩; exact ⟨⟨a, b⟩, by omega, hfit⟩
+    · intro _; simp [Nat.mul_comm]
+
+theorem opSpec_storeCoins (v : Int) :
+    OpSpec (BOp.storeCoins v : BOp R) (0 ≤ v ∧ byteLenU v.toNat < 16) (gramsBits v.toNat) [] := by
+  unfold BOp.storeCoins gramsBits
+  exact (opSpec_storeVarUint v 4).congr (by simp) (fun _ => ⟨rfl, rfl⟩)
+
+theorem opSpec_storeMaybeRef (r : Option R) :
+    OpSpec (BOp.storeMaybeRef r) True (maybeRefBits r) (maybeRefRefs r) := by
+  cases r with
+  | none => exact opSpec_extend _
+  | some c =>
+    exact (opSpec_andThen (opSpec_extend [true]) (opSpec_storeRef c)).congr (by simp)
+      (fun _ => by simp [maybeRefBits, maybeRefRefs])
+
+theorem safe_storeCell (cbits : Bits) (crefs : List R) : Safe (BOp.storeCell cbits crefs) := by
+  intro b hb
+  unfold BOp.storeCell
+  by_cases h : b.refs.length + crefs.length > 4
+  · simp only [h, if_true]; exact hb
+  · have hs := safe_extend cbits b hb
+    simp only [h, if_false]
+    by_cases h2 : (BOp.extend cbits b).2 = true
+    · simp only [h2, if_true]
+      have hr : (BOp.extend cbits b).1.refs = b.refs := by
+        unfold BOp.extend; split <;> rfl
+      unfold Inv at *
+      simp only [List.length_append, hr]; omega
+    · simp only [h2]; exact hs
+
+theorem opSpec_storeCell (cbits : Bits) (crefs : List R) :
+    OpSpec (BOp.storeCell cbits crefs) True cbits crefs := by
+  refine ⟨fun b ib => ?_, safe_storeCell cbits crefs⟩
+  unfold Inv at ib
+  unfold BOp.storeCell BOp.extend
+  by_cases h : b.refs.length + crefs.length > 4
+  · simp [h] <;> omega
+  · by_cases h2 : b.bits.length + cbits.length > 1023
+    · simp [h, h2] <;> omega
+    · simp [h, h2] <;> omega
+
+theorem opSpec_storeRefs (rs : List R) : OpSpec (BOp.storeRefs rs) True [] rs := by
+  induction rs with
+  | nil => exact opSpec_skip
+  | cons r rs ih =>
+    exact (opSpec_andThen (opSpec_storeRef r) ih).congr (by simp) (fun _ => by simp)
+
+theorem opSpec_storeSlice (sbits : Bits) (srefs : List R) :
+    OpSpec (BOp.storeSlice sbits srefs) True sbits srefs := by
+  have hc := (opSpec_andThen (opSpec_extend (R := R) sbits) (opSpec_storeRefs srefs))
+  refine ⟨fun b ib => ?_, ?_⟩
+  · unfold BOp.storeSlice
+    by_cases h : b.refs.length + srefs.length > 4
+    · simp [h] <;> omega
+    · simp only [h, if_false]
+      have := hc.1 b ib
+      simpa using this
+  · intro b hb
+    unfold BOp.storeSlice
+    by_cases h : b.refs.length + srefs.length > 4
+    · simp only [h, if_true]; exact hb
+    · simp only [h, if_false]; exact hc.2 b hb
+
+/-- "serialise into a fresh cell, then `store_cell` it" (`ExternalAddress.to_cell`) -/
+theorem opSpec_viaCell {inner : BOp R} {C : Prop} {xs : Bits} (h : OpSpec inner C xs []) :
+    OpSpec (fun (b : Builder R) =>
+      if (inner Builder.empty).2 then BOp.storeCell (inner Builder.empty).1.bits ([] : List R) b
+      else (b, false)) C xs [] := by
+  have ie : Inv (Builder.empty : Builder R) := by simp [Inv, Builder.empty]
+  obtain ⟨h1, h2⟩ := h.1 Builder.empty ie
+  by_cases hok : (inner Builder.empty).2 = true
+  · have hb := h2 hok
+    obtain ⟨c, hl, _⟩ := h1.mp hok
+    have e : (fun (b : Builder R) =>
+        if (inner Builder.empty).2 then BOp.storeCell (inner Builder.empty).1.bits ([] : List R) b
+        else (b, false)) = BOp.storeCell xs [] := by
+      funext b; rw [hok, hb]; simp [Builder.empty]
+    rw [e]
+    exact (opSpec_storeCell xs []).congr (by simp [c]) (fun _ => ⟨rfl, rfl⟩)
+  · have e : (fun (b : Builder R) =>
+        if (inner Builder.empty).2 then BOp.storeCell (inner Builder.empty).1.bits ([] : List R) b
+        else (b, false)) = BOp.fail := by
+      funext b; simp [hok, BOp.fail]
+    rw [e]
+    refine ⟨fun b ib => ⟨⟨fun hh => by simp [BOp.fail] at hh, ?_⟩, fun hh => by simp [BOp.fail] at hh⟩, safe_fail⟩
+    rintro ⟨c, hl, _⟩
+    refine absurd (h1.mpr ⟨c, ?_, ?_⟩) hok
+    · simp only [Builder.empty, List.length_nil]; omega
+    · simp [Builder.empty]
+
+theorem opSpec_extTail (len : Nat) (val : Int) :
+    OpSpec (if len = 0 ∧ val = 0 then BOp.skip else BOp.storeUint val len : BOp R)
+      (FitsUint len val) (uintBits len val.toNat) [] := by
+  by_cases h : len = 0 ∧ val = 0
+  · simp only [h, and_self, if_true]
+    obtain ⟨rfl, rfl⟩ := h
+    exact opSpec_skip.congr (by simp [FitsUint]) (fun _ => by simp [uintBits])
+  · simp only [h, if_false]
+    refine (opSpec_storeUint val len).congr ?_ (fun _ => ⟨rfl, rfl⟩)
+    constructor
+    · exact fun hh => hh.2
+    · intro hf
+      refine ⟨?_, hf⟩
+      rcases Nat.eq_zero_or_pos len with h0 | h0
+      · exfalso; subst h0; unfold FitsUint at hf; apply h; simp at hf; omega
+      · exact h0
+
+theorem opSpec_anycast (any : Option (Nat × Int)) :
+    OpSpec ((match any with
+            | some (depth, pfx) => BOp.storeBit true ⊳ BOp.storeUint depth 5 ⊳ BOp.storeUint pfx depth
+            | none => BOp.storeBit false) : BOp R)
+      (match any with | Option.none => True | some (d, p) => 1 ≤ d ∧ d < 32 ∧ FitsUint d p)
+      (anycastBits (any.map fun dp => (dp.1, uintBits dp.1 dp.2.toNat))) [] := by
+  cases any with
+  | none => exact opSpec_extend _
+  | some dp =>
+    obtain ⟨d, p⟩ := dp
+    refine (opSpec_andThen (opSpec_andThen (opSpec_extend [true]) (opSpec_storeUint d 5))
+      (opSpec_storeUint p d)).congr ?_ ?_
+    · simp only [fitsUint_nat]; constructor
+      · rintro ⟨⟨_, _, a⟩, b, c⟩; exact ⟨b, by simpa using a, c⟩
+      · rintro ⟨a, b, c⟩; exact ⟨⟨trivial, by decide, by simpa using b⟩, a, c⟩
+    · intro _; simp [anycastBits]
+
+theorem opSpec_storeAddress (a : Addr) :
+    OpSpec (BOp.storeAddress a : BOp R) (InRange (R := R) (.addr a)) (addrBits (addrOf a)) [] := by
+  cases a with
+  | none => exact opSpec_extend _
+  | ext len val =>
+    unfold BOp.storeAddress
+    refine (opSpec_viaCell (opSpec_andThen (opSpec_andThen (opSpec_extend [false, true])
+      (opSpec_storeUint len 9)) (opSpec_extTail len val))).congr ?_ ?_
+    · simp only [InRange, fitsUint_nat]; constructor
+      · rintro ⟨⟨_, _, a⟩, b⟩; exact ⟨by simpa using a, b⟩
+      · rintro ⟨a, b⟩; exact ⟨⟨trivial, by decide, by simpa using a⟩, b⟩
+    · intro _; simp [addrBits, addrOf]
+  | std any wc h =>
+    unfold BOp.storeAddress
+    refine (opSpec_andThen (opSpec_andThen (opSpec_andThen (opSpec_extend [true, false])
+      (opSpec_anycast any)) (opSpec_storeInt wc 8)) (opSpec_storeBytes h)).congr ?_ ?_
+    · simp only [InRange]; constructor
+      · rintro ⟨⟨⟨_, a⟩, _, b⟩, _⟩; exact ⟨a, b⟩
+      · rintro ⟨a, b⟩; exact ⟨⟨⟨trivial, a⟩, by decide, b⟩, trivial⟩
+    · intro _; simp [addrBits, addrOf]
+
+/-- every typed store: succeeds iff the value is in range and its TL-B encoding fits; then it has
+appended exactly that encoding (bits and references) -/
+theorem store_spec (tv : TVal R) : OpSpec tv.store (InRange tv) (enc tv) (refsOf tv) := by
+  cases tv with
+  | uint n v => exact opSpec_storeUint v n
+  | int n v => exact opSpec_storeInt v n
+  | varUint k v => exact opSpec_storeVarUint v k
+  | varInt k v => exact opSpec_storeVarInt v k
+  | coins v => exact opSpec_storeCoins v
+  | bit b => exact opSpec_extend [b]
+  | bits bs => exact opSpec_extend bs
+  | bytes bs => exact opSpec_storeBytes bs
+  | string bs => exact opSpec_storeString bs
+  | ref r => exact opSpec_storeRef r
+  | maybeRef r => exact opSpec_storeMaybeRef r
+  | dict r => exact opSpec_storeMaybeRef r
+  | addr a => exact opSpec_storeAddress a
+
 end TonVerif.Proofs.Builder
